@@ -375,7 +375,11 @@ func runEnv(c EnvCase) (res vh.Result) {
 			fmt.Fprintf(cur, "%s- name: \"r%d-{{ it }}\"\n%s  for:\n%s    range: '[\"x\",\"y\"]'\n%s    var: it\n", indent, lvl, indent, indent, indent)
 		} else if last && c.InnerIterator {
 			// the task role is generated by an iterator (same variable name as an outer iterator, if any)
-			fmt.Fprintf(cur, "%s- name: \"t-{{ it }}\"\n%s  for:\n%s    range: '[\"0\",\"1\"]'\n%s    var: it\n", indent, indent, indent, indent)
+			rng := `["0","1"]`
+			if c.IteratorAt > 0 && c.IteratorAt < depth-1 {
+				rng = `["{{ it }}0","{{ it }}1"]` // the inner range is an expression over the outer iteration variable
+			}
+			fmt.Fprintf(cur, "%s- name: \"t-{{ it }}\"\n%s  for:\n%s    range: '%s'\n%s    var: it\n", indent, indent, indent, rng, indent)
 		} else {
 			fmt.Fprintf(cur, "%s- name: %s\n", indent, name)
 		}
@@ -557,6 +561,18 @@ func runEnv(c EnvCase) (res vh.Result) {
 		}
 		if c.InnerIterator && strings.HasPrefix(r.Name, "t-") {
 			want := strings.TrimPrefix(r.Name, "t-")
+			if c.IteratorAt > 0 && c.IteratorAt < depth-1 {
+				// generated from the outer element: below r<k>-x only t-x0 and t-x1
+				outer := ""
+				for _, seg := range strings.Split(r.FullPath, ".") {
+					if strings.HasPrefix(seg, fmt.Sprintf("r%d-", c.IteratorAt)) {
+						outer = strings.TrimPrefix(seg, fmt.Sprintf("r%d-", c.IteratorAt))
+					}
+				}
+				if outer == "" || !strings.HasPrefix(want, outer) {
+					return fmt.Sprintf("role %s: the inner iterator ranges over [\"{{ it }}0\",\"{{ it }}1\"] of the outer element %q, yet it generated %s", r.FullPath, outer, r.Name)
+				}
+			}
 			if r.ConsolidatedStack["it"] != want {
 				return fmt.Sprintf("role %s is generated by the inner iterator for it=%q but its consolidated stack has it=%q (the nearest definition must win)", r.FullPath, want, r.ConsolidatedStack["it"])
 			}
